@@ -71,7 +71,7 @@ func (s *scheduler) switchTo(me, g *goroutine) {
 		panic(abortPanic{})
 	}
 	if s.abort != nil && me.id == 0 {
-		panic(s.abort)
+		panic(*s.abort)
 	}
 }
 
